@@ -303,7 +303,7 @@ func catalogue() []entry {
 					r.S("empty")
 					return
 				}
-				r.Fs(fit.LinearLeastSquares(p.fl[pair], p.fl[pair+1], w,
+				r.OwnFs(fit.LinearLeastSquares(p.fl[pair], p.fl[pair+1], w,
 					func(xs, out []float64) {
 						for i := range out {
 							out[i] = 1
@@ -314,6 +314,9 @@ func catalogue() []entry {
 				r.Fs(pr.Coefficients).S(pr.String())
 				for _, x := range xs {
 					r.F(pr.F(x))
+				}
+				for k := range pr.Coefficients {
+					pr.Coefficients[k] = -7.77e77 // the result object is the caller's
 				}
 			}}
 		}),
@@ -590,7 +593,7 @@ func catalogue() []entry {
 			i, j := g.Intn(len(p.fl)), g.Intn(len(p.fl))
 			return call{desc: fmt.Sprintf("fl[%d], fl[%d]", i, j), run: func(r *R) {
 				f := func(x float64) float64 { return 2*x + 1 }
-				r.F(vec.Sum(p.fl[i])).Fs(vec.Map(f, p.fl[i])).Fs(vec.Vectorize(f)(p.fl[j]))
+				r.F(vec.Sum(p.fl[i])).OwnFs(vec.Map(f, p.fl[i])).OwnFs(vec.Vectorize(f)(p.fl[j]))
 				c := vec.Concat(p.fl[i], p.fl[j], p.fl[i])
 				r.Fs(c)
 				for k := range c {
@@ -607,7 +610,7 @@ func catalogue() []entry {
 			return call{desc: fmt.Sprintf("linear %d x=%v max=%d level=%d", i, x, o.Max, lvl), run: func(r *R) {
 				r.F(s.Map(x)).F(s.Unmap(s.Map(x)))
 				ma, mi := s.Ticks(o)
-				r.Fs(ma).Fs(mi).I(s.CountTicks(lvl)).Fs(s.TicksAtLevel(lvl).([]float64))
+				r.OwnFs(ma).OwnFs(mi).I(s.CountTicks(lvl)).OwnFs(s.TicksAtLevel(lvl).([]float64))
 			}}
 		}),
 		E("scale.Log", []string{"scale.TickOptions.FindLevel", "scale.QQ.Map", "scale.QQ.Unmap"}, func(g simkit.G, p *pool) call {
@@ -622,9 +625,9 @@ func catalogue() []entry {
 			return call{desc: fmt.Sprintf("log %d x=%v max=%d guess=%d", i, x, o.Max, guess), run: func(r *R) {
 				r.F(s.Map(x)).F(s.Unmap(0.3))
 				ma, mi := s.Ticks(o)
-				r.Fs(ma).Fs(mi).I(s.CountTicks(1))
+				r.OwnFs(ma).OwnFs(mi).I(s.CountTicks(1))
 				if tl, ok := s.TicksAtLevel(guess % 3).([]float64); ok {
-					r.Fs(tl)
+					r.OwnFs(tl)
 				}
 				lv, ok := o.FindLevel(s, guess)
 				r.I(lv).B(ok)
@@ -698,7 +701,7 @@ func catalogue() []entry {
 				if big {
 					gr = p.big
 				}
-				r.Is(graphalg.PreOrder(gr, root)).Is(graphalg.PostOrder(gr, root))
+				r.OwnIs(graphalg.PreOrder(gr, root)).OwnIs(graphalg.PostOrder(gr, root))
 				var ev []int
 				calls := 0
 				e := graphalg.Euler{
@@ -762,10 +765,10 @@ func catalogue() []entry {
 				}
 				// shared inputs: p.bi, p.idom, p.dom
 				for _, fr := range graphalg.DomFrontier(p.bi, 0, p.idom) {
-					r.Is(fr)
+					r.OwnIs(fr)
 				}
 				for _, fr := range graphalg.DomFrontier(p.bi, 0, nil) {
-					r.Is(fr)
+					r.OwnIs(fr)
 				}
 				dt := graphalg.Dom(p.idom)
 				for _, t := range []*graphalg.DomTree{dt, p.dom} {
